@@ -180,7 +180,7 @@ func psResultsKey(results *testResults) string {
 		sbn = append(sbn, k+"="+v)
 	}
 	sort.Strings(sbn)
-	return fmt.Sprintf("res=%v sb=%v mu=%v", names, sbn, results.mu.Held())
+	return fmt.Sprintf("res=%v sb=%v mu=%v", names, sbn, mutexHeld(&results.mu))
 }
 
 // psUnarySuite builds a suite of unary cases with an explicit expected response.
